@@ -26,6 +26,20 @@ def _desc(t):
             return None
         return dict(kind='seq', elem=d, **({'as': t.native_as} if getattr(
             t, 'native_as', None) else {}))
+    if isinstance(t, S.TSet):
+        d = _desc(t.elem)
+        return None if d is None else dict(kind='set', elem=d)
+    if isinstance(t, S.TMap):
+        dk, dv = _desc(t.key), _desc(t.val)
+        if dk is None or dv is None:
+            return None
+        return dict(kind='map', key=dk, val=dv,
+                    mutable=bool(getattr(t, 'mutable', False)))
+    if type(t).__name__ == 'tuple_of':
+        d = _desc(t.t)
+        return None if d is None else dict(kind='tupleof', elem=d, n=t.n)
+    if isinstance(t, tuple) and all(_desc(x) is not None for x in t):
+        return dict(kind='tuple', items=[_desc(x) for x in t])
     if isinstance(t, S.TIter):
         d = _desc(t.elem)
         return None if d is None else dict(kind='seq', elem=d, **{'as':
@@ -47,6 +61,15 @@ def native_params(c):
     if getattr(c, 'native', None) is False:
         return None
     BIG[0] = bool(getattr(c, 'native_bigints', False))
+    texts = ' '.join(list(c.ensures) + list(c.requires) + [
+        v for v in (c.raises or {}).values() if isinstance(v, str)])
+    # ghost call logs, solver-level functions and symbolic-only helpers have
+    # no native twin
+    import re as _re
+    for tok in (r'\bcalls\b', 'LOCAL_', r'ufn\(', r'sizeof\(', 'yoff', 'ylen',
+                'MADE', 'NEW_', 'G__', 'DELEGATE'):
+        if _re.search(tok, texts) and getattr(c, 'native', None) is None:
+            return None
     out = {}
     for n, t in c.params.items():
         d = (getattr(c, 'native', None) or {}).get(n) or _desc(t)
